@@ -1600,3 +1600,53 @@ def enumerate_words(sub, flags=0, cap=400, rep_extra=1):
             return seq(list(av))
         raise AnalysisError(f"regex construct {op} not enumerated")
     return list(dict.fromkeys(seq(list(sub))))[:cap]
+
+
+def exclusive_group_pairs(pattern, flags=0):
+    """Pairs (g, h) of NAMED groups that sit in different alternatives of one
+    BRANCH: after a match at most one of them is set.  Returned for every
+    pair of alternatives of every branch (also nested ones)."""
+    tree = parse(pattern, flags)
+    names = {v: k for k, v in tree.state.groupdict.items()}
+    out = set()
+
+    def groups_in(items):
+        found = set()
+        for op, av in items:
+            if op is C.SUBPATTERN:
+                if av[0] in names:
+                    found.add(names[av[0]])
+                found |= groups_in(av[3])
+            elif op is C.BRANCH:
+                for alt in av[1]:
+                    found |= groups_in(alt)
+            elif op in REPEATS:
+                found |= groups_in(av[2])
+            elif op in (C.ASSERT, C.ASSERT_NOT):
+                found |= groups_in(av[1])
+            elif op is ATOMIC and op is not None:
+                found |= groups_in(av)
+        return found
+
+    def walk(items):
+        for op, av in items:
+            if op is C.SUBPATTERN:
+                walk(av[3])
+            elif op is C.BRANCH:
+                per_alt = [groups_in(alt) for alt in av[1]]
+                for i, a in enumerate(per_alt):
+                    for j, b in enumerate(per_alt):
+                        if i != j:
+                            for g in a:
+                                for h in b:
+                                    out.add((g, h))
+                for alt in av[1]:
+                    walk(alt)
+            elif op in REPEATS:
+                walk(av[2])
+            elif op in (C.ASSERT, C.ASSERT_NOT):
+                walk(av[1])
+            elif op is ATOMIC and op is not None:
+                walk(av)
+    walk(list(tree))
+    return out
